@@ -26,16 +26,17 @@ TReset ==
     /\ phase' = "idle" /\ tries' = 0 /\ content' = NoContent
     /\ wire' = NoNonce /\ answer' = NoAnswer /\ newest' = NoNonce
     /\ sentNonces' = {} /\ polls' = 0 /\ pollUrl' = "none" /\ nreq' = 0
-    /\ acctKey' = <<>> /\ bad' = {}
+    /\ acctKey' = <<>> /\ retryDue' = FALSE /\ caller' = "none" /\ bad' = {}
 
 TClientReset ==
     /\ Is("ClientReset") /\ Adv
     /\ cell' = NoNonce /\ phase' = "idle" /\ tries' = 0 /\ content' = NoContent
     /\ wire' = NoNonce /\ answer' = NoAnswer /\ newest' = NoNonce
     /\ sentNonces' = {} /\ polls' = 0 /\ pollUrl' = "none"
-    /\ UNCHANGED <<issued, consumed, nreq, acctKey>> /\ bad' = {}
+    /\ UNCHANGED <<issued, consumed, nreq, acctKey>> /\ retryDue' = FALSE /\ caller' = "none" /\ bad' = {}
 
-TBegin == Is("PostBegin") /\ Adv /\ Begin(Ev.poll, Ev.url)
+TBegin == Is("PostBegin") /\ Adv /\ BeginAs(Ev.poll, Ev.url, Ev.who)
+TOver == Is("AttemptOver") /\ Adv /\ AttemptOver(Ev.who)
 TSend == Is("HttpPost") /\ Adv /\ Send(Ev.nonce, Ev.cell)
 TCaGet == Is("CaGet") /\ Adv /\ CaGet(Ev.rnonce)
 TCaPost ==
@@ -51,7 +52,7 @@ TGiveUp == Is("HttpGiveUp") /\ Adv /\ GiveUp
 TForget == Is("CaForget") /\ Adv /\ CaForget(Ev.acct)
 
 TNext == TReset \/ TClientReset \/ TBegin \/ TSend \/ TCaGet \/ TCaPost \/ TNonceSet
-         \/ TOk \/ TErr \/ TGiveUp \/ TForget
+         \/ TOk \/ TErr \/ TGiveUp \/ TForget \/ TOver
 
 (* Every step on which an enforced guard failed is reported (and nothing else  *)
 (* is printed: an invariant violation would make TLC print the whole prefix).  *)
